@@ -1,11 +1,12 @@
 #!/bin/bash
-# tools/try_benign.sh <name> : apply /verif/benign/<name>/patch.diff (a behaviour-preserving change) to /repo, run every
+# tools/try_benign.sh <name> [ID ...] : apply /verif/benign/<name>/patch.diff (a behaviour-preserving change) to /repo, run every
 # quick check without touching the evidence, undo the patch. Any exit != 0 is a false alarm to be investigated.
-name=$1
+name=$1; shift
+props=${*:-C01 C02 C06 C07 C08 C09 C10 C11 C17 C18 C19 C20}
 git -C /repo apply --whitespace=nowarn /verif/benign/$name/patch.diff || { echo "PATCH-DOES-NOT-APPLY"; exit 2; }
 trap 'git -C /repo checkout -q -- . ; git -C /repo clean -fdq zlink-core/src zlink-tokio/src zlink-smol/src zlink-macros/src zlink/src' EXIT
 cd /verif
-for p in C01 C02 C06 C07 C08 C09 C10 C11 C17 C18 C19 C20; do
+for p in $props; do
   ./check $p quick --no-evidence > /tmp/benign_${name}_$p.log 2>&1; rc=$?
   echo "$name $p rc=$rc $(grep -E 'VIOLATION|violation class|HARNESS' /tmp/benign_${name}_$p.log | head -2 | cut -c1-300)"
 done
